@@ -127,11 +127,10 @@ Lemma is_compatible_placement_example :
   /\ is_compatible ex_model ex_circ (Some [0; 2]) = Some false /\ spec ex_model ex_circ [0; 2] = false.
 Proof. repeat split; reflexivity. Qed.
 
-(* ... but _is_respecting still tests the raw tuple: a block at a location listed in decreasing order is reported
-   not respecting although its qudits are coupled *)
-Lemma is_respecting_location_refuted :
-  is_respecting ex_model ex_circ [1; 0] false = false /\ is_respecting ex_model ex_circ [0; 1] false = true
-  /\ coupled ex_model 1 0 = true.
+(* the same for _is_respecting at a location listed in decreasing order (False before repo commit 4f34095) *)
+Lemma is_respecting_location_example :
+  is_respecting ex_model ex_circ [1; 0] false = true /\ is_respecting ex_model ex_circ [0; 1] false = true
+  /\ is_respecting ex_model ex_circ [0; 2] false = false /\ coupled ex_model 1 0 = true.
 Proof. repeat split; reflexivity. Qed.
 
 (* placeholders are gates for is_compatible: a barrier (gate id 9, not in the model) makes it answer False *)
@@ -156,15 +155,14 @@ Theorem replace_filter_forced : forall m fully new old loc fn,
   is_respecting m old loc fully = false -> lt_respecting m fully new (Some old) loc fn = true.
 Proof. intros. unfold lt_respecting. rewrite H. reflexivity. Qed.
 
-(* what "respecting" means, for a location listed in increasing order of the block's qudits *)
+(* what "respecting" means, for every block and every location *)
 Theorem is_respecting_spec : forall m b loc fully,
-  forallb (fun e => nth (fst e) loc 0 <=? nth (snd e) loc 0) (circ_edges b) = true ->
   is_respecting m b loc fully =
     forallb (fun o => (length (oloc o) <? 2) || gmem (og o) (mgates m)) (cops b)
     && (negb fully || forallb (fun o => (2 <=? length (oloc o)) || gmem (og o) (mgates m)) (cops b))
     && forallb (fun e => coupled m (nth (fst e) loc 0) (nth (snd e) loc 0)) (circ_edges b).
 Proof.
-  intros m b loc fully Hmono. unfold is_respecting.
+  intros m b loc fully. unfold is_respecting.
   assert (E1 : existsb (fun o => (2 <=? length (oloc o)) && negb (gmem (og o) (mgates m))) (cops b)
              = negb (forallb (fun o => (length (oloc o) <? 2) || gmem (og o) (mgates m)) (cops b))).
   { rewrite <- existsb_negb. apply existsb_ext_all. intros o.
@@ -175,12 +173,12 @@ Proof.
   { rewrite <- existsb_negb. apply existsb_ext_all. intros o.
     destruct (Nat.leb_spec 2 (length (oloc o))), (Nat.ltb_spec (length (oloc o)) 2); simpl; try lia;
       destruct (gmem (og o) (mgates m)); reflexivity. }
-  rewrite E1, E2, existsb_negb.
-  assert (EQ : forallb (fun e => raw_mem (nth (fst e) loc 0) (nth (snd e) loc 0) (edges_norm (medges m))) (circ_edges b)
-             = forallb (fun e => coupled m (nth (fst e) loc 0) (nth (snd e) loc 0)) (circ_edges b)).
-  { apply forallb_ext_in. intros e He. rewrite forallb_forall in Hmono. specialize (Hmono _ He).
-    apply Nat.leb_le in Hmono. unfold coupled. apply raw_mem_norm_le. exact Hmono. }
-  rewrite EQ.
+  assert (EQ : existsb (fun e => negb (raw_mem (nth (fst e) loc 0) (nth (snd e) loc 0) (edges_norm (medges m)))
+                              && negb (raw_mem (nth (snd e) loc 0) (nth (fst e) loc 0) (edges_norm (medges m))))
+                       (circ_edges b)
+             = negb (forallb (fun e => coupled m (nth (fst e) loc 0) (nth (snd e) loc 0)) (circ_edges b))).
+  { rewrite <- existsb_negb. apply existsb_ext_all. intros e. rewrite <- negb_orb, raw_either_coupled. reflexivity. }
+  rewrite E1, E2, EQ.
   set (A := forallb (fun o => (length (oloc o) <? 2) || gmem (og o) (mgates m)) (cops b)).
   set (B := forallb (fun o => (2 <=? length (oloc o)) || gmem (og o) (mgates m)) (cops b)).
   set (C := forallb (fun e => coupled m (nth (fst e) loc 0) (nth (snd e) loc 0)) (circ_edges b)).
